@@ -167,7 +167,7 @@ def gen_maint(rng, idx, big=False):
     nt = rng.randint(2, 4)
     nscripts = rng.randint(3, 8)
     for t in range(nt):
-        params = ','.join(f'{tag}:{rng.choice([0, 8, 8, 16, 24])}:{rng.choice([0, 1, 1, 2, 5])}:{rng.choice([0, 0, 3, 10])}'
+        params = ','.join(f'{tag}:{rng.choice([0, 8, 8, 16, 24])}:{rng.choice([0, 1, 1, 2, 5])}:{rng.choice([0, 0, 3, 10, -6])}'
                           for tag in range(3))
         st = str(rng.randrange(nscripts)) if rng.random() < 0.3 else '-'
         en = str(rng.randrange(nscripts)) if rng.random() < 0.3 else '-'
@@ -264,7 +264,13 @@ def gen_sensor(rng, idx, big=False):
     return L
 
 
-FAMILIES.update({'rm': gen_rm, 'maint': gen_maint, 'sched': gen_sched, 'sensor': gen_sensor})
+def gen_sensordec(rng, idx, big=False):
+    """sensor family on a decimal time grid (1 tick = 0.1): implementation only."""
+    L = gen_sensor(rng, idx, big)
+    return [L[0], ['tick', '10']] + L[1:]
+
+
+FAMILIES.update({'rm': gen_rm, 'maint': gen_maint, 'sched': gen_sched, 'sensor': gen_sensor, 'sensordec': gen_sensordec})
 
 
 # --------------------------------------------------------------------------------------- floor
@@ -277,6 +283,8 @@ class FloorBuilder:
         self.nassets = 0
 
     def dev(self, kind, **kw):
+        if kind in ('buffer', 'batcher', 'gate', 'gpath'):
+            kw.pop('cyc', None)
         toks = ['asset', 'dev', kind] + [f'{k}={v}' for k, v in kw.items() if v is not None]
         self.L.append(toks)
         self.kinds.append(kind)
@@ -319,7 +327,7 @@ def gen_floor(rng, idx, big=False, groups=True, congested=False, serial=False):
     def mk_source():
         budget = rng.choice(['inf', 'inf', 'def', '1', '3', '6', '12'])
         cyc = rng.choice([2, 4, 4, 8, 8, 16]) if budget in ('inf', 'def') else rng.choice([0, 0, 2, 4, 8])
-        return B.dev('source', cyc=cyc, budget=budget, pval=rng.choice([0, 0, 5, 7]), pqual=rng.choice([1, 1, 3]),
+        return B.dev('source', cyc=cyc, budget=budget, pval=rng.choice([0, 0, 5, 7, -4]), pqual=rng.choice([1, 1, 3]),
                      batchof=(rng.choice([0, 0, 2, 3, -1]) if batches else 0))
 
     prev = [mk_source() for _ in range(1 if serial else rng.choice([1, 1, 2]))]
@@ -409,7 +417,7 @@ def gen_floor(rng, idx, big=False, groups=True, congested=False, serial=False):
         nm = 1
         L.append(['asset', 'maint', 'cap=' + rng.choice(['inf', 'def', '1', '2']), 'value=' + str(rng.choice([0, 50]))])
         for d in procs[:4]:
-            params = ','.join(f'{tag}:{rng.choice([0, 4, 8, 16, 24])}:{rng.choice([0, 1, 1, 2])}:{rng.choice([0, 0, 3])}'
+            params = ','.join(f'{tag}:{rng.choice([0, 4, 8, 16, 24])}:{rng.choice([0, 1, 1, 2])}:{rng.choice([0, 0, 3, -2])}'
                               for tag in range(2))
             L.append(['target', str(ntg), f'dev={d}', 'start=-', 'end=-', f'params={params}'])
             ntg += 1
@@ -621,3 +629,294 @@ def gen_sysm(rng, idx, big=False):
 
 
 FAMILIES['sysm'] = gen_sysm
+
+
+# ------------------------------------------------------------------- targeted floor sub-families
+def _hdr(rng, idx):
+    L = [['scenario', str(idx)], ['seed', str(rng.randrange(1000)), str(rng.choice(WMODS))]]
+    if rng.random() < 0.5:
+        L.append(['idoff', str(rng.randrange(50))])
+    return L
+
+
+def _sched_ops(L, rng, sched):
+    for k, (t, op) in enumerate(sched):
+        L.append(['script', str(k)] + op)
+    for k, (t, op) in enumerate(sched):
+        L.append(['ext', 'sched', str(t), '-2', str(k), str(pick_prio(rng))])
+
+
+def gen_floor_maint(rng, idx, big=False):
+    """Maintenance-dense: long cycle times, several shutdown/restore pairs and work orders while one
+    part is in process, failures scheduled DURING a shutdown window, restores at various points,
+    processors holding resources, a finished part blocked behind a slow downstream."""
+    L = _hdr(rng, idx)
+    npools = rng.choice([0, 1, 1, 2])
+    for r in range(npools):
+        L.append(['res', str(r), str(rng.choice([1, 1, 2]))])
+    B = FloorBuilder(rng)
+    s = B.dev('source', cyc=rng.choice([2, 4, 8]), budget=rng.choice(['inf', '6', '12']), pval=rng.choice([0, 5]))
+    procs = []
+    prev = [s]
+    for j in range(rng.choice([1, 2, 2])):
+        kw = dict(up=','.join(map(str, prev)), cyc=rng.choice([12, 16, 24, 40]), nshut=rng.choice([1, 2]), nrest=1)
+        if npools and rng.random() < 0.7:
+            kw['res'] = ';'.join(f'{r}:1' for r in rng.sample(range(npools), rng.randint(1, npools)))
+        p = B.dev('processor', **kw)
+        procs.append(p)
+        if rng.random() < 0.3:
+            p2 = B.dev('processor', **kw)
+            procs.append(p2)
+            prev = [p, p2]
+        else:
+            prev = [p]
+    B.dev('sink', up=','.join(map(str, prev)), cyc=rng.choice([0, 0, 8, 30]), collect=0)
+    L += B.L
+    L.append(['asset', 'maint', 'cap=' + rng.choice(['inf', '1', '2']), 'value=0'])
+    for i, d in enumerate(procs):
+        L.append(['target', str(i), f'dev={d}', 'start=-', 'end=-',
+                  'params=' + ','.join(f'{tag}:{rng.choice([4, 8, 12, 20])}:{rng.choice([0, 1])}:{rng.choice([0, 3])}' for tag in range(2))])
+    sched = []
+    t = rng.choice([2, 6, 10])
+    for _ in range(rng.randint(3, 9)):
+        d = rng.randrange(len(procs))
+        c = rng.random()
+        if c < 0.35:
+            dur = rng.choice([2, 4, 6, 10])
+            sched.append((t, ['shutdown', str(procs[d])]))
+            if rng.random() < 0.5:
+                sched.append((t + rng.randrange(0, dur + 1), ['schedfailrel', str(procs[d]), str(rng.choice([0, 0, 1]))]))
+            sched.append((t + dur, ['restore', str(procs[d])]))
+            t += rng.choice([dur, dur + 2, dur + 6])
+        elif c < 0.65:
+            sched.append((t, ['wo', '0', str(d), str(rng.randrange(2)), '0']))
+            if rng.random() < 0.5:
+                sched.append((t + rng.choice([1, 2, 3, 5]), ['schedfailrel', str(procs[d]), '0']))
+                sched.append((t + rng.choice([6, 10, 24]), ['restore', str(procs[d])]))
+            t += rng.choice([2, 6, 14])
+        elif c < 0.85:
+            sched.append((t, ['schedfailrel', str(procs[d]), str(rng.choice([0, 1, 3]))]))
+            sched.append((t + rng.choice([2, 4, 9]), ['restore', str(procs[d])]))
+            t += rng.choice([4, 10])
+        else:
+            if npools:
+                r = rng.randrange(npools)
+                sched.append((t, ['addres', str(r), '-1']))
+                sched.append((t + rng.choice([4, 8]), ['addres', str(r), '1']))
+            t += 4
+    _sched_ops(L, rng, sched)
+    L.append(['run', str(rng.choice([96, 128, 160]))])
+    L.append(['end'])
+    return L
+
+
+def gen_floor_batch(rng, idx, big=False):
+    """Batch-heavy: singles and batches of several sizes (incl. empty) mixed into batchers of size n /
+    single, gates behind batchers, slow or blocked downstreams (refusals of batches), buffers in
+    front of unpacking batchers."""
+    L = _hdr(rng, idx)
+    B = FloorBuilder(rng)
+    n = rng.choice([2, 2, 3, 4])
+    srcs = []
+    for j in range(rng.choice([1, 2, 2, 3])):
+        srcs.append(B.dev('source', cyc=rng.choice([2, 4, 6, 8]), budget=rng.choice(['inf', '5', '9']),
+                          pval=rng.choice([0, 2]), batchof=rng.choice([0, 0, n, n, 2, 3, 5, -1])))
+    prev = srcs
+    if rng.random() < 0.4:
+        prev = [B.dev('buffer', up=','.join(map(str, prev)), cap=rng.choice(['inf', '4', '6', '8']), delay=rng.choice([0, 4]))]
+    b1 = B.dev('batcher', up=','.join(map(str, prev)), bsz=rng.choice([str(n), str(n), '-']))
+    prev = [b1]
+    c = rng.random()
+    if c < 0.5:
+        g = B.dev('gate', up=str(b1), pred=rng.choice(['always', 'always', 'vge:0', 'qlt:5']))
+        prev = [g]
+    if rng.random() < 0.5:
+        prev = [B.dev('buffer', up=','.join(map(str, prev)), cap=rng.choice(['inf', '3', '6']), delay=rng.choice([0, 0, 8]))]
+    if rng.random() < 0.5:
+        prev = [B.dev('batcher', up=','.join(map(str, prev)), bsz=rng.choice(['-', '2', '3']))]
+    slow = B.dev(rng.choice(['processor', 'handler']), up=','.join(map(str, prev)), cyc=rng.choice([8, 12, 20]))
+    B.dev('sink', up=str(slow), cyc=rng.choice([0, 8]), collect=rng.choice([0, 1]))
+    if rng.random() < 0.4:
+        B.dev('sink', up=','.join(map(str, prev)), cyc=rng.choice([0, 16]), collect=0)
+    L += B.L
+    sched = []
+    for _ in range(rng.randint(0, 5)):
+        t = rng.choice([4, 8, 16, 24, 40])
+        d = rng.choice([slow, b1] + prev)
+        sched.append((t, ['block', str(d), '1']))
+        sched.append((t + rng.choice([4, 8, 20]), ['block', str(d), '0']))
+    _sched_ops(L, rng, sched)
+    L.append(['run', str(rng.choice([64, 96, 128]))])
+    L.append(['end'])
+    return L
+
+
+def gen_floor_groups(rng, idx, big=False):
+    """Group-heavy: shared groups with several paths, a path feeding a path of another group, nested
+    groups (an inner group's path is a member / the input device of an outer group), blocked paths,
+    failing members."""
+    L = _hdr(rng, idx)
+    B = FloorBuilder(rng)
+    shape = rng.choice(['nested', 'nested', 'chain', 'shared'])
+    s1 = B.dev('source', cyc=rng.choice([2, 4, 8]), budget=rng.choice(['inf', '4', '8']), pval=rng.choice([0, 3]))
+    s2 = B.dev('source', cyc=rng.choice([4, 8]), budget=rng.choice(['inf', '3'])) if rng.random() < 0.5 else None
+    procs = []
+    paths = []
+    if shape == 'nested':
+        m1 = B.dev('processor', cyc=rng.choice([0, 4, 8]), nshut=1, nrest=1)
+        procs.append(m1)
+        B.group(0, [m1])
+        pin = B.dev('gpath', group=0)                         # inner path, no upstream yet
+        members = [pin]
+        if rng.random() < 0.6:
+            b = B.dev(rng.choice(['handler', 'processor', 'buffer']), up=str(pin), cyc=rng.choice([0, 4]))
+            members.append(b)
+        if rng.random() < 0.3:
+            a = B.dev('handler', cyc=rng.choice([0, 4]))
+            L_extra = ('wire', pin, [a])
+            members = [a] + members
+        else:
+            L_extra = None
+        L += B.L
+        B.L = []
+        if L_extra:
+            L.append(['wire', str(L_extra[1]), ','.join(map(str, L_extra[2]))])
+        B.group(1, members)
+        for src in [s1] + ([s2] if s2 is not None else []):
+            p = B.dev('gpath', group=1, up=str(src))
+            paths.append(p)
+            if rng.random() < 0.5:
+                k = B.dev('handler', up=str(p), cyc=rng.choice([0, 4, 8]))
+                B.dev('sink', up=str(k), cyc=0, collect=1)
+            else:
+                B.dev('sink', up=str(p), cyc=rng.choice([0, 4]), collect=1)
+    elif shape == 'chain':
+        m1 = B.dev('processor', cyc=rng.choice([0, 4, 8]), nshut=1, nrest=1)
+        B.group(0, [m1])
+        m2 = B.dev(rng.choice(['processor', 'handler']), cyc=rng.choice([0, 4, 8]))
+        B.group(1, [m2])
+        procs.append(m1)
+        a = B.dev('gpath', group=0, up=str(s1))
+        bpath = B.dev('gpath', group=1, up=str(a))            # path feeding a path
+        paths += [a, bpath]
+        B.dev('sink', up=str(bpath), cyc=rng.choice([0, 4]), collect=1)
+        if s2 is not None:
+            c = B.dev('gpath', group=1, up=str(s2))
+            d = B.dev('gpath', group=0, up=str(c))
+            paths += [c, d]
+            B.dev('sink', up=str(d), cyc=0, collect=1)
+    else:
+        m1 = B.dev('processor', cyc=rng.choice([2, 4, 8]), nshut=1, nrest=1)
+        m2 = B.dev('handler', up=str(m1), cyc=rng.choice([0, 4]))
+        procs.append(m1)
+        B.group(0, [m1, m2])
+        a = B.dev('gpath', group=0, up=str(s1))
+        mid = B.dev(rng.choice(['handler', 'buffer']), up=str(a), cyc=rng.choice([0, 4]))
+        b = B.dev('gpath', group=0, up=str(mid))              # re-entrant
+        paths += [a, b]
+        B.dev('sink', up=str(b), cyc=rng.choice([0, 4]), collect=1)
+        if s2 is not None:
+            c = B.dev('gpath', group=0, up=str(s2))
+            paths.append(c)
+            B.dev('sink', up=str(c), cyc=0, collect=1)
+    L += B.L
+    sched = []
+    for _ in range(rng.randint(0, 5)):
+        t = rng.choice([4, 8, 12, 20, 32])
+        c = rng.random()
+        if c < 0.5 and paths:
+            d = rng.choice(paths)
+            sched.append((t, ['block', str(d), '1']))
+            sched.append((t + rng.choice([4, 8, 16]), ['block', str(d), '0']))
+        elif procs:
+            d = rng.choice(procs)
+            sched.append((t, ['schedfailrel', str(d), '0']))
+            sched.append((t + rng.choice([2, 6, 12]), ['restore', str(d)]))
+    _sched_ops(L, rng, sched)
+    L.append(['run', str(rng.choice([64, 96]))])
+    L.append(['end'])
+    return L
+
+
+def gen_floor_pools(rng, idx, big=False):
+    """Resource-heavy: several processors requiring two or three pools each (in different orders),
+    scarce capacities, capacity schedules dropping to zero and rising again, failures and work orders
+    while holding resources."""
+    L = _hdr(rng, idx)
+    npools = rng.choice([2, 2, 3])
+    for r in range(npools):
+        L.append(['res', str(r), str(rng.choice([0, 1, 1, 2]))])
+    B = FloorBuilder(rng)
+    srcs = [B.dev('source', cyc=rng.choice([2, 4, 8]), budget=rng.choice(['inf', '5', '10'])) for _ in range(rng.choice([1, 2, 3]))]
+    procs = []
+    for j in range(rng.choice([2, 3, 3, 4])):
+        pools = rng.sample(range(npools), rng.choice([1, 2, 2, npools]))
+        res = ';'.join(f'{r}:{rng.choice([0, 1, 1, 2])}' for r in pools)
+        procs.append(B.dev('processor', up=','.join(map(str, rng.sample(srcs, rng.randint(1, len(srcs))))),
+                           cyc=rng.choice([0, 4, 8, 12]), res=res, nshut=1, nrest=0))
+    B.dev('sink', up=','.join(map(str, procs)), cyc=rng.choice([0, 0, 4]), collect=0)
+    L += B.L
+    L.append(['asset', 'maint', 'cap=inf', 'value=0'])
+    for i, d in enumerate(procs):
+        L.append(['target', str(i), f'dev={d}', 'start=-', 'end=-', 'params=0:8:0:0,1:4:0:0'])
+    sched = []
+    for _ in range(rng.randint(2, 8)):
+        t = rng.choice([2, 4, 8, 12, 16, 24, 32, 40])
+        c = rng.random()
+        r = rng.randrange(npools)
+        if c < 0.4:
+            k = rng.choice([1, 1, 2])
+            sched.append((t, ['addres', str(r), str(-k)]))
+            sched.append((t + rng.choice([4, 8, 16]), ['addres', str(r), str(k)]))
+        elif c < 0.55:
+            sched.append((t, ['addres', str(r), str(rng.choice([1, 2]))]))
+        elif c < 0.8:
+            d = rng.randrange(len(procs))
+            sched.append((t, ['wo', '0', str(d), str(rng.randrange(2)), '0']))
+            if rng.random() < 0.5:
+                sched.append((t + rng.choice([1, 2]), ['schedfailrel', str(procs[d]), '0']))
+                sched.append((t + rng.choice([10, 14]), ['restore', str(procs[d])]))
+        else:
+            d = rng.choice(procs)
+            sched.append((t, ['schedfailrel', str(d), '0']))
+            sched.append((t + rng.choice([2, 6]), ['restore', str(d)]))
+    _sched_ops(L, rng, sched)
+    L.append(['run', str(rng.choice([64, 96]))])
+    L.append(['end'])
+    return L
+
+
+def gen_floor_special(rng, idx, big=False):
+    f = rng.choice([gen_floor_maint, gen_floor_maint, gen_floor_batch, gen_floor_batch, gen_floor_groups, gen_floor_pools])
+    return f(rng, idx, big)
+
+
+def gen_floor_procfirst(rng, idx, big=False):
+    """maintenance-dense line whose processors are created BEFORE the source (wired afterwards), so
+    that the very first asset id belongs to a machine that fails"""
+    L = _hdr(rng, idx)
+    L = [l for l in L if l[0] != 'idoff']
+    n = rng.choice([1, 2])
+    cyc = [rng.choice([8, 12, 20]) for _ in range(n)]
+    for j in range(n):
+        L.append(['asset', 'dev', 'processor', f'cyc={cyc[j]}', 'nshut=1', 'nrest=1'])
+    L.append(['asset', 'dev', 'source', f'cyc={rng.choice([2, 4])}', 'budget=inf'])
+    L.append(['wire', '0', str(n)])
+    for j in range(1, n):
+        L.append(['wire', str(j), str(j - 1)])
+    L.append(['asset', 'dev', 'sink', f'up={n - 1}', 'cyc=0', 'collect=0'])
+    sched = []
+    t = rng.choice([3, 6, 10])
+    for _ in range(rng.randint(2, 5)):
+        d = rng.randrange(n)
+        sched.append((t, ['schedfailrel', str(d), str(rng.choice([0, 1, 2]))]))
+        sched.append((t + rng.choice([2, 3, 5, 9]), ['restore', str(d)]))
+        t += rng.choice([7, 13, 21])
+    _sched_ops(L, rng, sched)
+    L.append(['run', str(rng.choice([96, 128]))])
+    L.append(['end'])
+    return L
+
+
+FAMILIES.update({'floorpf': gen_floor_procfirst, 'floorm': gen_floor_maint, 'floorb': gen_floor_batch, 'floorg': gen_floor_groups,
+                 'floorp': gen_floor_pools, 'floors': gen_floor_special})
